@@ -34,6 +34,7 @@
 #include "ErrOut.hpp"
 #include "ErrPod.hpp"
 #include "OutOwned.hpp"
+#include "OutNested.hpp"
 #include "ErrTok.hpp"
 #include "OutPair.hpp"
 #include "Pod.hpp"
@@ -101,11 +102,11 @@ static Fn make_fn(uint32_t& id_out) {
 enum K { NEW, TRY_NEW, TRY_NEW_DISCARD, MAYBE_NEW, TRY_NEW_POD, ID, BUMP, PEER, MAYBE_PEER, VIEW, TRY_VIEW, VIEW_OWNER, PAIR, TRY_PAIR,
          TAKE_STRS, SUM, FILL, CALL, CALL_TWICE, IGNORE, TRY_CALL, GREET, HOLD, CALL_HELD, UNHOLD, OPT_IN, DOPT_IN, OPT_U32, RES_UNIT, RES_POD,
          DESCRIBE, DESCRIBE_N, TRY_DESCRIBE, DESCRIBE_INTO, DESTROY, MOVE, THROW_SCOPE, SCOPE,
-         LIST_NEW, ITER_BEGIN, ITER_COPY, ITER_DROP, ITER_ADVANCE, ITER_RANGE, HOLD_MUT, CALL_HELD_MUT, CALL_MUT, RESULT_ASSIGN, OWNED_PAIR, TRY_NEW_ERR_OUT, NKINDS };
+         LIST_NEW, ITER_BEGIN, ITER_COPY, ITER_DROP, ITER_ADVANCE, ITER_RANGE, HOLD_MUT, CALL_HELD_MUT, CALL_MUT, RESULT_ASSIGN, OWNED_PAIR, TRY_NEW_ERR_OUT, MAKE_NESTED, NKINDS };
 static const char* KNAME[] = {"new", "try_new", "try_new_discard", "maybe_new", "try_new_pod_err", "id", "bump", "peer", "maybe_peer", "view", "try_view", "view_owner", "pair", "try_pair",
                               "take_strs", "sum", "fill", "call", "call_twice", "ignore", "try_call", "greet", "hold", "call_held", "unhold", "opt_in", "dopt_in", "opt_u32", "res_unit", "res_pod",
                               "describe", "describe_n", "try_describe", "describe_into", "destroy", "move", "throw_scope", "scope",
-                              "list_new", "iter_begin", "iter_copy", "iter_drop", "iter_advance", "iter_range", "hold_mut", "call_held_mut", "call_mut", "result_assign", "owned_pair", "try_new_err_out"};
+                              "list_new", "iter_begin", "iter_copy", "iter_drop", "iter_advance", "iter_range", "hold_mut", "call_held_mut", "call_mut", "result_assign", "owned_pair", "try_new_err_out", "make_nested"};
 struct Op { int k = 0; int h = 0, g = 0, d = 0; int n = 0; bool f = true; };
 struct Trace { uint64_t seed = 0, run = 0; std::string prop = "C03"; std::vector<Op> ops; };
 static const int NH = 6;
@@ -176,7 +177,7 @@ static Trace gen_trace(uint64_t seed, uint64_t run, const std::string& prop) {
         case 3: o.k = TRY_NEW; kinds[o.h] = o.f ? 1 : 2; break;
         case 4: o.k = MAYBE_NEW; if (o.f) kinds[o.h] = 1; break;
         case 5: o.k = TRY_NEW_POD; if (o.f) kinds[o.h] = 1; break;
-        default: switch (rng.below(5)) { case 0: o.k = TRY_NEW_DISCARD; break; case 1: o.k = RESULT_ASSIGN; o.n = rng.below(8); break; case 2: o.k = OWNED_PAIR; o.n = rng.below(3); break; case 3: o.k = TRY_NEW_ERR_OUT; o.n = rng.below(2); if (o.n == 0) kinds[o.h] = o.f ? 1 : 2; break; default: o.k = LIST_NEW; o.n = rng.below(5); kinds[o.h] = 4; } break;
+        default: switch (rng.below(6)) { case 5: o.k = MAKE_NESTED; o.n = rng.below(4); break; case 0: o.k = TRY_NEW_DISCARD; break; case 1: o.k = RESULT_ASSIGN; o.n = rng.below(8); break; case 2: o.k = OWNED_PAIR; o.n = rng.below(3); break; case 3: o.k = TRY_NEW_ERR_OUT; o.n = rng.below(2); if (o.n == 0) kinds[o.h] = o.f ? 1 : 2; break; default: o.k = LIST_NEW; o.n = rng.below(5); kinds[o.h] = 4; } break;
       }
       t.ops.push_back(o); continue;
     }
@@ -290,6 +291,19 @@ struct Exec {
         if (o.n == 0) { put_tok(o.h, std::move(p.a)); if (p.b) put_tok(o.d, std::move(p.b)); }
         else if (o.n == 1) { put_tok(o.h, std::move(p.a)); }
         inc("out_struct_owning_objects_returned");
+        break;
+      }
+      case MAKE_NESTED: {
+        // an out-struct whose optional fields are themselves structs (one owning objects): Some then None in a row is
+        // what leaves stale bytes behind an absent payload. n&1: keep the inner `a` in a handle; n&2: inner has both
+        if (x.kind) return false;
+        OutNested p = Tok::make_nested(o.f, (o.n & 2) != 0);
+        if (p.tag != 55 || p.inner.has_value() != o.f || p.pod.has_value() == o.f) { fail("O5-value-integrity", "make_nested fields wrong"); break; }
+        if (o.f) {
+          if (p.inner->n != 78 || !p.inner->a || (p.inner->b != nullptr) != ((o.n & 2) != 0)) { fail("O5-value-integrity", "make_nested inner fields wrong"); break; }
+          if (o.n & 1) put_tok(o.h, std::move(p.inner->a));
+        } else if (p.pod->a != 9 || p.pod->b != 1) { fail("O5-value-integrity", "make_nested pod wrong"); break; }
+        inc("out_struct_with_optional_struct_fields_returned");
         break;
       }
       case TRY_NEW_ERR_OUT: {
